@@ -242,6 +242,8 @@ class E2Sim(object):
         self.ro = ['10.0.0.%d:0' % (21 + k) for k in range(cfg.get('n_ro', 0))]      # keys of read-only nodes (they have no address)
         self.ro_disc = []
         self.stable_leader = None
+        self.pending_escape = None
+        self.throttle = {}
         for a in self.addrs:
             self.start(a)
         for a in self.ro:
@@ -348,6 +350,14 @@ class E2Sim(object):
             raise
         except Exception as e:
             self.stats['escaped_' + type(e).__name__] += 1
+            import traceback
+            tb = traceback.extract_tb(e.__traceback__)
+            loc = [f for f in tb if 'pysyncobj' in f.filename]
+            if loc and os.path.basename(loc[-1].filename) in ('transport.py', 'tcp_connection.py', 'tcp_server.py', 'poller.py'):
+                # whatever the connection-level fault pattern, the transport stack must not throw out of a tick
+                self.pending_escape = Violation('C14', 'exception_escaped', '%s: %s escaped from %s:%s in a tick of %s'
+                                                % (type(e).__name__, str(e)[:100], os.path.basename(loc[-1].filename), loc[-1].name, a),
+                                                exc=type(e).__name__, where=loc[-1].name)
             return None
 
     def tick(self, a, dt):
@@ -415,7 +425,14 @@ class E2Sim(object):
             if held:
                 continue
             if s.wire:
-                if healthy:
+                th = self.throttle.get(id(s)) if self.throttle else None
+                if th is not None:
+                    # a slow link: bytes keep trickling at th['rate'] per (virtual) second
+                    k = int((CLK.now - th['last']) * th['rate'])
+                    if k >= 1:
+                        th['last'] = CLK.now
+                        th['moved'] += socksim.move(s, k)
+                elif healthy:
                     socksim.move(s)
                 else:
                     n = rng.choice([1, 7, 64, None, None])
@@ -479,6 +496,8 @@ class E2Sim(object):
                         self.mship('remove')
                 if RAISED:
                     raise RAISED[0]
+                if self.pending_escape is not None:
+                    raise self.pending_escape
             if self.proto is not None:
                 self.proto_phase()
             else:
@@ -548,6 +567,8 @@ class E2Sim(object):
                     self.net_step(healthy=True)
             if RAISED:
                 raise RAISED[0]
+            if self.pending_escape is not None:
+                raise self.pending_escape
             self.note_pairs()
 
     def note_pairs(self):
@@ -603,6 +624,8 @@ class E2Sim(object):
         if stable and lead is not None:
             self.sit['stable_leader_window'] += 1
             self.probe_round('leader links', only=lead)
+            if cfg.get('slow_frame') and not self.outsider:
+                self.slow_frame_check()
         ka = 16 + 3 * 5 + 1.0          # default tcp_keepalive=(16, 3, 5): the kernel reports a dead flow after that much silence
         self.settle(max(cfg.get('conn_timeout', 3.5), ka))
         self.both_up = set()
@@ -649,6 +672,82 @@ class E2Sim(object):
         if bad:
             self.settle(B)
         self.probe_round('second')
+
+    def slow_frame_check(self):
+        """One big frame from a follower to the leader over a slow link: its bytes keep arriving for longer than connectionTimeout
+        (what the follower sends after it queues up behind it).  A link on which data arrives all the time is not dead: no side may
+        report a disconnect, and the frame arrives, once."""
+        cfg = self.cfg
+        rng = self.rng
+        ct = cfg.get('conn_timeout', 3.5)
+        ls = [a for a in self.addrs if self.objs[a]._isLeader()]
+        if len(self.addrs) < 3 or len(ls) != 1 or self.bad_terms(ls[0]):
+            return
+        L = ls[0]
+        oL = self.objs[L]
+        fol = []
+        for a in self.addrs:
+            if a == L or a in self.dead:
+                continue
+            o = self.objs[a]
+            nl = [n for n in o.otherNodes if n.id == L]
+            nf = [n for n in oL.otherNodes if n.id == a]
+            if nl and nf and o.isNodeConnected(nl[0]) and oL.isNodeConnected(nf[0]):
+                fol.append((a, nl[0]))
+        if not fol:
+            return
+        F, nL = rng.choice(fol)
+        hF, hL = F.split(':')[0], L.split(':')[0]
+        socks = [x for x in socksim.live_socks() if not x.closed and x.peer is not None and not x.peer.closed and x.state == 'established'
+                 and x.host == hF and x.peer.host == hL]
+        if len(socks) != 1:
+            return
+        sk = socks[0]
+        size = rng.choice([20000, 100000, 300000])
+        D = ct * rng.choice([1.3, 2.2])
+        size = max(4000, min(size, int(cfg.get('sndbuf', 65536) * 100 * D * 0.9)))      # (what the sender's socket buffer lets through in D)
+        nonce = len(self.probes) + 1
+        self.probes[nonce] = []
+        t = self.objs[F]._SyncObj__transport
+        e0 = (len(self.conn_events[(L, F)]), len(self.conn_events[(F, L)]))
+        self.net.current = hF
+        self.throttle[id(sk)] = {'rate': size / D, 'last': CLK.now, 'moved': 0}
+        ok = t.send(nL, {'type': 'verif_probe', 'from': F, 'nonce': nonce, 'pad': rng.randbytes(size)})
+        if not ok:
+            self.throttle.clear()
+            raise Violation('C14', 'reported_connected_but_send_fails', '%s reports %s connected, but send() of a %d byte frame returned False'
+                            % (F, L, size), idle_longer_than_timeout=False, between_followers=False, big=True)
+        t0 = CLK.now
+        try:
+            th = self.throttle[id(sk)]
+            last_moved, last_progress = 0, CLK.now
+            # (the sender's socket buffer may be the bottleneck rather than the link: no deadline, bytes just have to keep arriving)
+            while CLK.now - last_progress < 1.0 and CLK.now - t0 < 900.0:
+                self.settle(0.1)
+                if th['moved'] > last_moved:
+                    last_moved, last_progress = th['moved'], CLK.now
+                d = self.conn_events[(L, F)][e0[0]:] + self.conn_events[(F, L)][e0[1]:]
+                if 'D' in d:
+                    raise Violation('C14', 'busy_link_declared_dead', 'the link %s -> %s was reported disconnected %.2fs into the transfer of one %d '
+                                    'byte frame at %.0f bytes/s (connectionTimeout %.1fs): %d bytes of it had arrived, the last ones less than '
+                                    '0.1s before' % (F, L, CLK.now - t0, size, size / D, ct, self.throttle[id(sk)]['moved']),
+                                    longer_than_timeout=(CLK.now - t0 > ct - 0.2))
+                if self.probe_seen.get((F, L, nonce), 0):
+                    break
+                if self.bad_terms(L) or not self.objs[L]._isLeader():
+                    self.sit['slow_frame_leader_changed'] += 1
+                    return
+        finally:
+            self.throttle.clear()
+        k = self.probe_seen.get((F, L, nonce), 0)
+        if k != 1:
+            raise Violation('C14', 'probe_not_delivered_once', 'a %d byte frame %s -> %s (reported connected, send() True) sent over a slow link '
+                            'arrived %d times within %.1fs (%d bytes moved)' % (size, F, L, k, CLK.now - t0, last_moved), times=k, big=True,
+                            receiver_idle_longer_than_timeout=False, between_followers=False)
+        self.sit['slow_frame_longer_than_timeout_ok'] += 1
+
+    def bad_terms(self, lead):
+        return self.objs[lead].raftCurrentTerm < max(self.objs[a].raftCurrentTerm for a in self.addrs if a not in self.dead)
 
     def readonly_check(self, B):
         """Read-only nodes (no address: the member gives each incoming one an id of its own) after faults, kills and restarts
@@ -751,6 +850,7 @@ def gen_cfg_outsider(cfg, seed, i):
         # 0 and a read-only node that kept running ignores the new leaders for good (it never campaigns, so its higher term
         # never spreads) - a consequence of losing all persistent state, not of the transport
         cfg['journal'] = 'file'
+    cfg['slow_frame'] = random.Random(h32('e2slow', seed, i)).random() < 0.5
     if r.random() < 0.34:
         cfg['outsider'] = r.choice(['stranger', 'removed', 'ghost', 'ghost'])
         cfg['x_host'] = r.choice([0, 9])          # smaller / greater than every member: X is dialled by / dials the members
